@@ -21,6 +21,31 @@ from edgegraph.traversal import helpers
 from edgegraph.output import nrpickler
 
 
+class _Timeout(BaseException):
+    pass
+
+
+class _deadline:
+    """with _deadline(seconds): ...  - raises _Timeout inside the block when the time is up (main thread, SIGALRM)"""
+
+    def __init__(self, seconds):
+        self.seconds = seconds
+
+    def _fire(self, *a):
+        raise _Timeout()
+
+    def __enter__(self):
+        import signal
+        self.old = signal.signal(signal.SIGALRM, self._fire)
+        signal.alarm(self.seconds)
+
+    def __exit__(self, *exc):
+        import signal
+        signal.alarm(0)
+        signal.signal(signal.SIGALRM, self.old)
+        return False
+
+
 def build_graph(case):
     """returns (world, root universe); world left OPEN (caller closes)"""
     w = H.World()
@@ -103,6 +128,8 @@ class RoundTrip(Leg):
                     ops.append(["UAV", u, u])
                 if vids and rng.random() < 0.5:
                     ops.append(["NE", "KDir", rng.choice(vids), u2])
+            if rng.random() < 0.3:      # vertices of a class that dill must pickle by value (defined in a function, uses super())
+                ops = [([op[0], 4] + op[2:]) if op[0] == "NV" and len(op) == 4 and rng.random() < 0.5 else op for op in ops]
             if rng.random() < 0.3:      # vertices with value semantics (__eq__ / __hash__ on the uid)
                 ops = [([op[0], 3] + op[2:]) if op[0] == "NV" and len(op) == 4 and rng.random() < 0.7 else op for op in ops]
             yield {"ops": ops, "u": u, "root": rng.choice(["universe", "universe", "vertex", "link"]),
@@ -116,7 +143,11 @@ class RoundTrip(Leg):
         w, root = build_graph(case)
         try:
             try:
-                data = nrpickler.dumps(root) if case["proto"] is None else nrpickler.dumps(root, protocol=case["proto"])
+                with _deadline(30):
+                    data = nrpickler.dumps(root) if case["proto"] is None else nrpickler.dumps(root, protocol=case["proto"])
+            except _Timeout:
+                return {"problems": ["nrpickler.dumps did not return within 30 s on a graph of "
+                                     f"{len(w.objs)} objects (the recursive picklers take milliseconds)"]}
             except Exception as e:  # noqa: BLE001
                 return {"problems": [f"nrpickler.dumps raised {type(e).__name__}: {e}"]}
             Vertex.NEIGHBOR_CACHING = False
@@ -487,5 +518,10 @@ class C10(Prop):
     pid = "C10"
     legs = [RoundTrip(), StreamEquality(), Depth(), Scheduler()]
     assumptions = ["pickle / dill decode an opcode stream as documented; dill's per-type save behaviour is a parameter of the theorem "
-                   "(expand), traced from real runs for the tie", "the theorem covers the scheduling logic only: that the bytes "
+                   "(expand), traced from real runs for the tie",
+                   "standing hypothesis of the model: one invocation of dill's save() is a function of the memo at entry and the object "
+                   "only. dill violates it for classes and functions pickled by value (its _postproc bookkeeping follows the recursion "
+                   "stack) - defect D22; the repaired code saves those objects atomically (recursively), modelled by `atomic`, and the "
+                   "round-trip legs exercise them (function-local classes using super(), dumps under a deadline)",
+                   "the theorem covers the scheduling logic only: that the bytes "
                    "decode to an isomorphic graph is decided by the round-trip legs (in-process and fresh interpreter)"]
